@@ -1178,6 +1178,448 @@ fn pooledvec_overalign_case(c: &mut Case) -> Res {
     c.set_nontrivial(true); Ok(())
 }
 
+// ================================================================================================
+// gap-coverage families: slice views of the RAII guards (views), capacity / fit queries (query), free-list walks
+// against the live set (walk), builder-made configurations (builder), five-level handles (handle_*).
+// All cases below live in NEW generator families; nothing above draws differently because of them.
+// ================================================================================================
+trait View {
+    fn vptr(&self) -> usize; fn vsize(&self) -> usize; fn vs(&self) -> &[u8]; fn vm(&mut self) -> &mut [u8];
+    /// alignment this particular block must have (documented per tier), 1 = nothing beyond the pool's own
+    fn valign(&self) -> usize { 1 }
+    /// further accessor-consistency checks of the guard
+    fn vextra(&mut self) -> Result<(), String> { Ok(()) }
+}
+impl View for LockFreeAllocation { fn vptr(&self) -> usize { self.as_ptr() as usize } fn vsize(&self) -> usize { self.size() } fn vs(&self) -> &[u8] { self.as_slice() } fn vm(&mut self) -> &mut [u8] { self.as_mut_slice() } }
+impl View for ThreadLocalAllocation { fn vptr(&self) -> usize { self.as_ptr() as usize } fn vsize(&self) -> usize { self.size() } fn vs(&self) -> &[u8] { self.as_slice() } fn vm(&mut self) -> &mut [u8] { self.as_mut_slice() } }
+impl View for FixedCapacityAllocation { fn vptr(&self) -> usize { self.as_ptr() as usize } fn vsize(&self) -> usize { self.size() } fn vs(&self) -> &[u8] { self.as_slice() } fn vm(&mut self) -> &mut [u8] { self.as_mut_slice() } }
+impl View for SecurePooledPtr {
+    fn vptr(&self) -> usize { self.as_ptr() as usize } fn vsize(&self) -> usize { self.size() } fn vs(&self) -> &[u8] { self.as_slice() } fn vm(&mut self) -> &mut [u8] { self.as_mut_slice() }
+    fn vextra(&mut self) -> Result<(), String> {
+        match self.as_non_null() { Some(p) if p.as_ptr() == self.as_ptr() => {} o => return Err(format!("as_non_null() = {o:?} but as_ptr() = {:p}", self.as_ptr())) }
+        self.validate().map_err(|e| format!("live guard (generation {}) fails validate(): {e}", self.generation()))
+    }
+}
+impl View for MmapAllocation {
+    fn vptr(&self) -> usize { self.as_ptr::<u8>() as usize } fn vsize(&self) -> usize { self.size() } fn vs(&self) -> &[u8] { self.as_slice() } fn vm(&mut self) -> &mut [u8] { self.as_mut_slice() }
+    fn valign(&self) -> usize { 4096 }
+    fn vextra(&mut self) -> Result<(), String> {
+        if self.as_mut_ptr() as usize != self.as_ptr::<u8>() as usize { return Err(format!("as_mut_ptr() = {:p} but as_ptr() = {:p}", self.as_mut_ptr(), self.as_ptr::<u8>())); }
+        if self.actual_size() < self.size() { return Err(format!("actual_size() {} < size() {}", self.actual_size(), self.size())); }
+        Ok(())
+    }
+}
+impl View for TieredAllocation {
+    fn vptr(&self) -> usize { self.as_ptr::<u8>() as usize } fn vsize(&self) -> usize { self.size() } fn vs(&self) -> &[u8] { self.as_slice() } fn vm(&mut self) -> &mut [u8] { self.as_mut_slice() }
+    fn valign(&self) -> usize { match self { TieredAllocation::Small(..) => 8, TieredAllocation::Medium(..) => 16, _ => 4096 } }
+}
+#[cfg(target_os = "linux")]
+impl View for HugePage { fn vptr(&self) -> usize { self.as_slice().as_ptr() as usize } fn vsize(&self) -> usize { self.size() } fn vs(&self) -> &[u8] { self.as_slice() } fn vm(&mut self) -> &mut [u8] { self.as_mut_slice() } fn valign(&self) -> usize { self.page_size().max(1) } }
+
+/// script entry: (0, size) allocate | (1, k) free the k-th live guard | (2, _) sweep
+fn views_script(r: &mut Rng, n: usize, max_live: usize, mut size: impl FnMut(&mut Rng) -> usize) -> Vec<(u8, usize)> {
+    let mut v = Vec::new(); let mut live = 0usize;
+    for i in 0..n { if live == 0 || (live < max_live && r.chance(3, 5)) { v.push((0u8, size(r).max(1))); live += 1; } else { v.push((1u8, r.usize_below(1 << 20))); live -= 1; } if i % 17 == 16 { v.push((2, 0)); } }
+    v
+}
+fn views_str(s: &[(u8, usize)]) -> String { s.iter().map(|&(k, x)| match k { 0 => format!("a{x} "), 1 => format!("f{x} "), _ => "v ".to_string() }).collect() }
+fn view_check<G: View>(c: &mut Case, g: &G, pat: u8, when: &str) -> Res {
+    let s = g.vs(); c.ev(1);
+    ensure!(s.as_ptr() as usize == g.vptr() && s.len() == g.vsize(), "view_mismatch", "{when}: as_slice() = [{:#x},+{}) but as_ptr()/size() = [{:#x},+{})", s.as_ptr() as usize, s.len(), g.vptr(), g.vsize());
+    if let Some(i) = s.iter().position(|&b| b != pat) { return Err(bad("content_corrupt", format!("{when}: live block [{:#x},+{}) byte +{i} = {:#04x}, want {pat:#04x} (read through as_slice())", g.vptr(), s.len(), s[i]))); }
+    Ok(())
+}
+/// Generic history over RAII guards. Blocks are written through as_mut_slice() and read back through as_slice().
+/// `pre(size, live)` = Ok(true) when the request must be refused, Err(..) when a capacity query contradicts the model;
+/// `post(live ranges)` = structural checks (free lists vs. live set, capacity accounting) after every operation.
+fn views_run<G: View>(c: &mut Case, script: &[(u8, usize)], align: usize,
+    alloc: &mut dyn FnMut(usize) -> Result<G, String>, free: &mut dyn FnMut(G) -> Result<(), String>,
+    pre: &mut dyn FnMut(usize, usize) -> Result<bool, String>, post: &mut dyn FnMut(&[(usize, usize)]) -> Result<(), (String, String)>) -> Result<Vec<usize>, Fail> {
+    let mut live: Vec<(G, usize, u8)> = Vec::new(); let mut sh = Shadow::new(); let mut ever: Vec<usize> = Vec::new();
+    let (mut allocs, mut frees, mut refused) = (0u64, 0u64, 0u64);
+    for (i, &(k, x)) in script.iter().enumerate() {
+        let when = format!("op {i}");
+        match k {
+            0 => {
+                let must_refuse = pre(x, live.len()).map_err(|e| bad("capacity_query_mismatch", format!("{when}: before allocate({x}) with {} live: {e}", live.len())))?;
+                match catch(|| alloc(x)).map_err(|p| pfail(&format!("{when}: allocate({x})"), p))? {
+                    Err(_) => { refused += 1; }
+                    Ok(mut g) => {
+                        ensure!(!must_refuse, "capacity_not_refused", "{when}: allocate({x}) returned Ok although the pool's own capacity query says it cannot be served ({} live)", live.len());
+                        let (a, n) = (g.vptr(), g.vsize()); let al = align.max(g.valign()).max(1); c.ev(4);
+                        ensure!(n >= x, "short_block", "{when}: allocate({x}) returned a guard of size() {n}");
+                        ensure!(a != 0 && a % al == 0, "misaligned", "{when}: allocate({x}) returned {a:#x}, not a multiple of the required alignment {al}");
+                        if let Some(o) = sh.overlap(a, n.max(1)) { return Err(bad("overlap", format!("{when}: allocate({x}) -> {o}"))); }
+                        if let Err(e) = g.vextra() { return Err(bad("view_mismatch", format!("{when}: allocate({x}): {e}"))); }
+                        let pat = pat_for(allocs); let m = g.vm();
+                        ensure!(m.as_mut_ptr() as usize == a && m.len() == n, "view_mismatch", "{when}: as_mut_slice() = [{:#x},+{}) but as_ptr()/size() = [{a:#x},+{n})", m.as_mut_ptr() as usize, m.len());
+                        m.fill(pat); sh.live.insert(a, (n.max(1), pat)); ever.push(a); live.push((g, x, pat)); allocs += 1;
+                    }
+                }
+            }
+            1 => if !live.is_empty() {
+                let (g, req, pat) = live.remove(x % live.len());
+                view_check(c, &g, pat, &format!("{when}: before free of the block requested with size {req}"))?;
+                sh.remove(g.vptr());
+                if let Err(e) = catch(|| free(g)).map_err(|p| pfail(&format!("{when}: free (size {req})"), p))? { return Err(bad("free_err", format!("{when}: free of a valid live block (size {req}) returned Err: {e}"))); }
+                frees += 1;
+                for (g, _, pat) in &live { view_check(c, g, *pat, &format!("{when}: after free of a block of size {req}"))?; }
+            },
+            _ => { for (g, _, pat) in &live { view_check(c, g, *pat, &format!("{when}: sweep"))?; } }
+        }
+        let ranges: Vec<(usize, usize)> = live.iter().map(|(g, _, _)| (g.vptr(), g.vsize().max(1))).collect();
+        if let Err((oracle, e)) = post(&ranges) { return Err(bad(&oracle, format!("{when} ({}): {e}", match k { 0 => format!("allocate({x})"), 1 => "free".to_string(), _ => "sweep".to_string() }))); }
+    }
+    while let Some((g, req, pat)) = live.pop() {
+        view_check(c, &g, pat, "final cleanup")?; sh.remove(g.vptr());
+        if let Err(e) = catch(|| free(g)).map_err(|p| pfail(&format!("final cleanup: free (size {req})"), p))? { return Err(bad("free_err", format!("final cleanup: free of a valid live block (size {req}) returned Err: {e}"))); }
+        frees += 1;
+        for (g, _, pat) in &live { view_check(c, g, *pat, "final cleanup: after a free")?; }
+    }
+    if let Err((oracle, e)) = post(&[]) { return Err(bad(&oracle, format!("after everything was freed: {e}"))); }
+    c.note("allocs", allocs); c.note("frees", frees); c.note("refused", refused); c.set_nontrivial(allocs >= 2 && frees >= 1);
+    Ok(ever)
+}
+/// free-list entries (address, length) against the live ranges: inside the arena, pairwise distinct, disjoint from every live block
+fn free_vs_live(entries: &[(usize, usize)], live: &[(usize, usize)], arena: Option<(usize, usize)>) -> Result<(), (String, String)> {
+    let mut seen = std::collections::HashSet::new();
+    for &(a, n) in entries {
+        if !seen.insert(a) { return Err(("block_parked_twice".into(), format!("block {a:#x} appears twice in the pool's free lists"))); }
+        if let Some((base, size)) = arena { if a < base || a + n > base + size { return Err(("free_block_out_of_arena".into(), format!("free-list block [+{:#x},+{n}) lies outside the {size}-byte arena", a.wrapping_sub(base)))); } }
+        for &(l, m) in live { if a < l + m && l < a + n { return Err(("live_block_in_free_list".into(), format!("free-list block [{a:#x},+{n}) overlaps the live block [{l:#x},+{m}): the next allocation of that class would hand out live memory"))); } }
+    }
+    Ok(())
+}
+fn no_pre() -> impl FnMut(usize, usize) -> Result<bool, String> { |_, _| Ok(false) }
+fn no_post() -> impl FnMut(&[(usize, usize)]) -> Result<(), (String, String)> { |_| Ok(()) }
+
+fn views_lf_case(c: &mut Case) -> Res {
+    let mut cfg = LockFreePoolConfig::compact(); cfg.memory_size = *c.rng.pick(&[65_536usize, 100_000, 262_144]); cfg.zero_on_free = c.rng.bool(); cfg.enable_stats = c.rng.bool(); cfg.backoff_strategy = BackoffStrategy::None;
+    c.input_str("cfg", &format!("memory_size={} zero_on_free={} stats={}", cfg.memory_size, cfg.zero_on_free, cfg.enable_stats));
+    let tab = lf_tab(true); let n = 60 + c.rng.usize_below(160);
+    let script = views_script(&mut c.rng, n, 12, |r| pick_size(r, &tab, false)); c.input_str("ops", &views_str(&script));
+    let pool = match catch(|| LockFreeMemoryPool::new(cfg)) { Ok(Ok(p)) => Arc::new(p), Ok(Err(e)) => return crate::ctx::inconclusive(format!("LockFreeMemoryPool::new: {e}")), Err(p) => return Err(pfail("LockFreeMemoryPool::new", p)) };
+    let (p1, p2) = (pool.clone(), pool.clone());
+    let mut alloc = move |s: usize| p1.allocate(s).map(|p| LockFreeAllocation::new(p, s, p1.clone())).map_err(|e| e.to_string());
+    let mut free = |g: LockFreeAllocation| { drop(g); Ok(()) };
+    let mut post = move |live: &[(usize, usize)]| -> Result<(), (String, String)> {
+        let lists = p2.verif_walk_free_lists().map_err(|e| ("free_structure_malformed".to_string(), e))?; let (base, size) = p2.verif_arena();
+        let ent: Vec<(usize, usize)> = lists.iter().flat_map(|(bs, offs)| offs.iter().map(move |&o| (base + o as usize, *bs))).collect();
+        free_vs_live(&ent, live, Some((base, size)))
+    };
+    let ever = views_run(c, &script, 8, &mut alloc, &mut free, &mut no_pre(), &mut post)?;
+    // quiescent: every block ever handed out by the fast bins is parked exactly once
+    let lists = pool.verif_walk_free_lists().map_err(|e| bad("free_structure_malformed", e))?; let (base, _) = pool.verif_arena();
+    let parked: std::collections::HashSet<usize> = lists.iter().flat_map(|(_, offs)| offs.iter().map(|&o| base + o as usize)).collect();
+    let distinct: std::collections::HashSet<usize> = ever.iter().copied().collect(); c.ev(2);
+    for a in &parked { ensure!(distinct.contains(a), "unknown_block_parked", "block +{:#x} is in a free list but was never handed out", a - base); }
+    ensure!(parked.len() == distinct.len(), "block_lost", "{} distinct blocks were handed out and all were freed, but the free lists hold {}", distinct.len(), parked.len());
+    Ok(())
+}
+fn views_tl_case(c: &mut Case) -> Res {
+    let which = *c.rng.pick(&["default", "compact"]); let cfg = tl_cfg(which); let arena = cfg.arena_size; c.input_str("cfg", &format!("{which} arena={arena}"));
+    let tab = tl_tab(arena, false); let n = 60 + c.rng.usize_below(160);
+    let script = views_script(&mut c.rng, n, 12, |r| pick_size(r, &tab, false)); c.input_str("ops", &views_str(&script));
+    let pool = match catch(|| ThreadLocalMemoryPool::new(cfg)) { Ok(Ok(p)) => p, Ok(Err(e)) => return Err(bad("ctor_err", format!("ThreadLocalMemoryPool::new: {e}"))), Err(p) => return Err(pfail("ThreadLocalMemoryPool::new", p)) };
+    let p1 = pool.clone();
+    let mut alloc = move |s: usize| p1.allocate(s).map_err(|e| e.to_string());
+    let mut free = |g: ThreadLocalAllocation| { drop(g); Ok(()) };
+    let r = views_run(c, &script, 8, &mut alloc, &mut free, &mut no_pre(), &mut no_post());
+    c.note("tl_memory_usage", pool.memory_usage() as u64);
+    if r.is_ok() { pool.clear_caches(); }
+    r.map(|_| ())
+}
+fn views_fc_case(c: &mut Case) -> Res {
+    let mut cfg = fc_cfg(c, "custom"); cfg.enable_stats = c.rng.chance(3, 4);
+    c.input_str("cfg", &format!("max_block={} blocks={} align={} eager={} clear={} stats={}", cfg.max_block_size, cfg.total_blocks, cfg.alignment, cfg.eager_allocation, cfg.secure_clear, cfg.enable_stats));
+    if cfg.max_block_size % cfg.alignment != 0 { c.tag("fc_block_not_multiple_of_align"); }
+    let tab = SizeTab { bounds: fc_classes(cfg.max_block_size, cfg.alignment), max: cfg.max_block_size + 9, big: vec![], aligns: vec![], min: 1, live_bytes: 0, exact: false };
+    let n = 60 + c.rng.usize_below(160); let max_live = cfg.total_blocks + 2;
+    let script = views_script(&mut c.rng, n, max_live.min(24), |r| pick_size(r, &tab, false)); c.input_str("ops", &views_str(&script));
+    let cfg2 = cfg.clone();
+    let pool = match catch(|| FixedCapacityMemoryPool::new(cfg2)) { Ok(Ok(p)) => Box::new(p), Ok(Err(e)) => return Err(bad("ctor_err", format!("FixedCapacityMemoryPool::new: {e}"))), Err(p) => return Err(pfail("FixedCapacityMemoryPool::new", p)) };
+    let pool: &FixedCapacityMemoryPool = &pool; let (total, maxb, stats_on) = (cfg.total_blocks, cfg.max_block_size, cfg.enable_stats);
+    let mut alloc = |s: usize| pool.allocate(s).map_err(|e| e.to_string());
+    let mut free = |g: FixedCapacityAllocation| { drop(g); Ok(()) };
+    let mut pre = |size: usize, live: usize| -> Result<bool, String> {
+        let has = pool.has_capacity(size);
+        if size > maxb { if has { return Err(format!("has_capacity({size}) = true for a request above max_block_size {maxb}")); } return Ok(true); }
+        if stats_on { let want = live < total; if has != want { return Err(format!("has_capacity({size}) = {has} with {live} of {total} blocks live")); } return Ok(!want); }
+        Ok(live >= total)
+    };
+    let mut post = |live: &[(usize, usize)]| -> Result<(), (String, String)> {
+        if stats_on {
+            let av = pool.available_capacity(); let want = (total - live.len().min(total)) * maxb;
+            if av != want { return Err(("capacity_query_mismatch".into(), format!("available_capacity() = {av} with {} of {total} blocks live (max_block_size {maxb}): expected {want}", live.len()))); }
+            if let Some(s) = pool.stats() { let at = s.is_at_capacity(total); if at != (live.len() >= total) { return Err(("capacity_query_mismatch".into(), format!("stats().is_at_capacity({total}) = {at} with {} blocks live", live.len()))); } }
+        }
+        let lists = pool.verif_walk_free_lists().map_err(|e| ("free_structure_malformed".to_string(), e))?;
+        let arena = pool.verif_arena(); let base = arena.map_or(0, |a| a.0);
+        let ent: Vec<(usize, usize)> = lists.iter().flat_map(|(cs, offs)| offs.iter().map(move |&o| (base + o as usize, (*cs).max(1)))).collect();
+        free_vs_live(&ent, live, arena)?;
+        if let Some((b, sz)) = arena { for &(l, m) in live { if l < b || l + m > b + sz { return Err(("out_of_arena".into(), format!("live block [{l:#x},+{m}) outside the arena [{b:#x},+{sz})"))); } } }
+        Ok(())
+    };
+    views_run(c, &script, cfg.alignment, &mut alloc, &mut free, &mut pre, &mut post).map(|_| ())
+}
+const SEC_CLASSES: &[usize] = &[8, 16, 32, 48, 64, 80, 96, 112, 128, 160, 192, 224, 256, 320, 384, 448, 512, 640, 768, 896, 1024, 1280, 1536, 1792, 2048, 2560, 3072, 3584, 4096, 5120, 6144, 7168, 8192];
+fn views_secure_case(c: &mut Case) -> Res {
+    // configuration made with the builder methods only
+    let chunk = *c.rng.pick(&[8usize, 64, 100, 256, 1000, 4096, 16_384]); let maxc = *c.rng.pick(&[1usize, 4, 100]); let align = *c.rng.pick(&[8usize, 8, 16, 64, 4096]);
+    let (guard, batch, simd_thr, cache_al, numa, hotcold, hot_thr, hugep, huge_thr, pf) = (c.rng.bool(), *c.rng.pick(&[0usize, 1, 8, 64]), *c.rng.pick(&[0usize, 1, 64, 1 << 20]), c.rng.bool(), c.rng.bool(), c.rng.bool(), *c.rng.pick(&[0usize, 1, 1000]), c.rng.bool(), *c.rng.pick(&[0usize, 4096, 2 << 20]), *c.rng.pick(&[0usize, 1, 8, 1000]));
+    let pat_k = c.rng.below(7); let lcache = *c.rng.pick(&[0usize, 1, 3, 64]); let (zf, za, simd) = (c.rng.bool(), c.rng.bool(), c.rng.bool());
+    let mut cfg = SecurePoolConfig::new(chunk, maxc, 8).with_alignment(align).with_guard_pages(guard).with_batch_size(batch).with_simd_threshold(simd_thr).with_cache_alignment(cache_al)
+        .with_numa_awareness(numa).with_hot_cold_separation(hotcold).with_hot_data_threshold(hot_thr).with_huge_pages(hugep).with_huge_page_threshold(huge_thr).with_prefetch_distance(pf)
+        .with_local_cache_size(lcache).with_zero_on_free(zf).with_zero_on_alloc(za).with_simd_ops(simd);
+    cfg = match pat_k { 0 => cfg.with_cache_config(None), 1 => cfg.with_cache_config(Some(CacheLayoutConfig::new())), 2 => cfg.with_access_pattern(AccessPattern::Sequential), 3 => cfg.with_access_pattern(AccessPattern::Random), 4 => cfg.with_access_pattern(AccessPattern::WriteHeavy), 5 => cfg.with_access_pattern(AccessPattern::ReadHeavy), _ => cfg.with_access_pattern(AccessPattern::Mixed) };
+    c.input_str("cfg", &format!("builder chunk={chunk} max_chunks={maxc} align={align} guard={guard} batch={batch} simd_thr={simd_thr} cache_align={cache_al} numa={numa} hot_cold={hotcold} hot_thr={hot_thr} huge={hugep} huge_thr={huge_thr} prefetch={pf} cache_cfg={pat_k} local_cache={lcache} zero_free={zf} zero_alloc={za} simd={simd}"));
+    if align > 8 { c.tag("secure_align_gt8"); } if lcache == 0 { c.tag("secure_cache0"); } if chunk % 8 != 0 { c.tag("secure_chunk_not_multiple_of_8"); }
+    // builder == plain field assignment
+    ensure!(cfg.chunk_size == chunk && cfg.alignment == align && cfg.use_guard_pages == guard && cfg.batch_size == batch && cfg.simd_threshold == simd_thr && cfg.enable_cache_alignment == cache_al && cfg.enable_numa_awareness == numa && cfg.enable_hot_cold_separation == hotcold && cfg.hot_data_threshold == hot_thr && cfg.enable_huge_pages == hugep && cfg.huge_page_threshold == huge_thr && cfg.prefetch_distance == pf && cfg.local_cache_size == lcache && cfg.cache_config.is_some() == (pat_k != 0),
+        "builder_field_mismatch", "SecurePoolConfig built with the with_* methods does not carry the values given: {cfg:?}");
+    // size classes: the class of a request is the smallest class that holds it
+    for _ in 0..16 { let s = 1 + c.rng.usize_below(8192); let k = size_to_class(s); c.ev(1); ensure!(k < SEC_CLASSES.len() && SEC_CLASSES[k] >= s && (k == 0 || SEC_CLASSES[k - 1] < s), "size_class_wrong", "size_to_class({s}) = {k} (class size {:?})", SEC_CLASSES.get(k)); }
+    let n = 50 + c.rng.usize_below(120); let script = views_script(&mut c.rng, n, 14, |_| chunk); c.input_str("ops", &views_str(&script));
+    let mut pool = match catch(|| SecureMemoryPool::new(cfg)) { Ok(Ok(p)) => p, Ok(Err(e)) => return Err(bad("ctor_err", format!("SecureMemoryPool::new: {e}"))), Err(p) => return Err(pfail("SecureMemoryPool::new", p)) };
+    let ever = {
+        let p1 = pool.clone(); let p2 = pool.clone(); let mut flip = 0u64;
+        let mut alloc = move |_s: usize| { flip += 1; let g = match flip % 3 { 0 => p1.allocate_with_hint(flip % 2 == 0), 1 => p1.allocate_bulk_with_prefetch(&[chunk]).map(|mut v| v.pop().unwrap()), _ => p1.allocate() }.map_err(|e| e.to_string())?;
+            // a block the client has not written yet: verify_zeroed_simd must agree with a plain scan
+            let plain = g.as_slice().iter().all(|&b| b == 0); match p1.verify_zeroed_simd(g.as_slice()) { Ok(v) if v == plain => {} o => { let e = format!("VERIFY_ZEROED verify_zeroed_simd = {o:?}, plain scan says {plain}"); std::mem::forget(g); return Err(e); } }
+            Ok(g) };
+        let mut free = |g: SecurePooledPtr| { drop(g); Ok(()) };
+        let mut post = move |_: &[(usize, usize)]| p2.validate().map_err(|e| ("pool_validate_err".to_string(), e.to_string()));
+        views_run(c, &script, align, &mut alloc, &mut free, &mut no_pre(), &mut post)?
+    };
+    // quiescent: parked chunks are pairwise distinct and were handed out before
+    let s = pool.stats(); c.note("sec_pool_misses", s.pool_misses);
+    ensure!(s.double_free_detected == 0 && s.corruption_detected == 0, "pool_reported_corruption", "double_free_detected={} corruption_detected={} in a history without bad frees", s.double_free_detected, s.corruption_detected);
+    if let Some(inner) = Arc::get_mut(&mut pool) {
+        let parked = inner.verif_free_chunks().map_err(|e| bad("free_structure_malformed", e))?; let set: std::collections::HashSet<usize> = parked.iter().copied().collect(); c.ev(2);
+        ensure!(set.len() == parked.len(), "block_parked_twice", "{} parked chunks but only {} distinct addresses", parked.len(), set.len());
+        for a in &set { ensure!(ever.contains(a), "unknown_block_parked", "chunk {a:#x} is parked in the pool but was never handed out"); }
+    } else { c.note("pool_still_shared", 1); }
+    Ok(())
+}
+fn views_mmap_case(c: &mut Case) -> Res {
+    let dflt = c.rng.bool(); let min = if dflt { 16 * 1024 } else { *c.rng.pick(&[1usize, 4096, 16 * 1024, 65_536]) };
+    c.input_str("cfg", &format!("{} min_mmap_size={min}", if dflt { "default()" } else { "new" }));
+    let m = if dflt { MemoryMappedAllocator::default() } else { MemoryMappedAllocator::new(min) };
+    let sizes = [1usize, 100, 4095, 4096, 4097, 8192, 16_383, 16_384, 16_385, 65_535, 65_536, 65_537, 70_000, 300_000, 1 << 20];
+    let n = 40 + c.rng.usize_below(80); let script = views_script(&mut c.rng, n, 8, |r| if r.chance(1, 4) { min.saturating_sub(1 + r.usize_below(8)).max(1) } else { *r.pick(&sizes) }); c.input_str("ops", &views_str(&script));
+    let mut alloc = |s: usize| m.allocate(s).map_err(|e| e.to_string());
+    let mut free = |g: MmapAllocation| m.deallocate(g).map_err(|e| e.to_string());
+    // should_use_mmap(size) == false  <=>  the request is below the documented minimum and is refused
+    let mut pre = |size: usize, _live: usize| -> Result<bool, String> { let u = m.should_use_mmap(size); if u != (size >= min) { return Err(format!("should_use_mmap({size}) = {u} with min_mmap_size {min}")); } Ok(!u) };
+    views_run(c, &script, 4096, &mut alloc, &mut free, &mut pre, &mut no_post()).map(|_| ())
+}
+fn views_tiered_case(c: &mut Case, global: bool) -> Res {
+    c.input_str("cfg", if global { "global" } else { "default" });
+    let t = if global { None } else { Some(match catch(|| TieredMemoryAllocator::new(TieredConfig::default())) { Ok(Ok(p)) => p, Ok(Err(e)) => return Err(bad("ctor_err", format!("TieredMemoryAllocator::new: {e}"))), Err(p) => return Err(pfail("TieredMemoryAllocator::new", p)) }) };
+    let mut tab = tier_tab(false); tab.big = vec![16_385, 65_536, 100_000, 1 << 20];
+    let n = 50 + c.rng.usize_below(120); let script = views_script(&mut c.rng, n, 10, |r| pick_size(r, &tab, true)); c.input_str("ops", &views_str(&script));
+    let mut alloc = |s: usize| match &t { Some(t) => t.allocate(s), None => tiered_allocate(s) }.map_err(|e| e.to_string());
+    let mut free = |g: TieredAllocation| match &t { Some(t) => t.deallocate(g), None => tiered_deallocate(g) }.map_err(|e| e.to_string());
+    let mut k = 0u64;
+    // pattern analysis / optimisation run in the middle of the history; the sweep that follows shows they disturbed nothing
+    let mut post = |_: &[(usize, usize)]| -> Result<(), (String, String)> { k += 1; if k % 7 == 0 { match &t { Some(t) => { t.get_allocation_pattern().map_err(|e| ("optimize_err".to_string(), e.to_string()))?; t.optimize_for_pattern().map_err(|e| ("optimize_err".to_string(), e.to_string()))?; } None => { let _ = get_tiered_stats(); } } } Ok(()) };
+    views_run(c, &script, 8, &mut alloc, &mut free, &mut no_pre(), &mut post).map(|_| ())
+}
+fn hugepage_direct_case(c: &mut Case) -> Res {
+    #[cfg(target_os = "linux")]
+    {
+        use zipora::memory::hugepage::{get_hugepage_count, get_hugepage_info, hugepages_available, init_hugepage_support};
+        let plan: Vec<(bool, usize)> = (0..1 + c.rng.usize_below(3)).map(|_| (c.rng.chance(1, 5), *c.rng.pick(&[1usize, 4096, (2 << 20) - 1, 2 << 20, (2 << 20) + 1, 5 << 20]))).collect();
+        c.input_str("ops", &plan.iter().map(|&(g, s)| format!("{}:{s} ", if g { "1gb" } else { "2mb" })).collect::<String>());
+        let avail = catch(|| (hugepages_available(), init_hugepage_support().is_ok(), get_hugepage_info(2 << 20).map(|i| i.free_pages).unwrap_or(0), get_hugepage_count())).map_err(|p| pfail("hugepage queries", p))?;
+        c.note("hugepages_available", avail.0 as u64); c.note("free_2mb_pages", avail.2 as u64);
+        let mut held: Vec<(HugePage, u8)> = Vec::new(); let mut sh = Shadow::new();
+        for (i, &(gb, size)) in plan.iter().enumerate() {
+            let r = catch(|| if gb { HugePage::new_1gb(size) } else { HugePage::new_2mb(size) }).map_err(|p| pfail(&format!("HugePage::new ({size})"), p))?;
+            let Ok(mut p) = r else { c.note("refused", 1); continue };
+            let (a, n) = (p.vptr(), p.vsize()); let pat = pat_for(i as u64); c.ev(3);
+            ensure!(n >= size, "short_block", "HugePage of {size} bytes has size() {n}");
+            ensure!(p.page_size() == if gb { 1 << 30 } else { 2 << 20 } && a % p.page_size() == 0, "misaligned", "huge page at {a:#x}, page_size() {}", p.page_size());
+            if let Some(o) = sh.overlap(a, n) { return Err(bad("overlap", o)); }
+            let m = p.vm(); ensure!(m.as_mut_ptr() as usize == a && m.len() == n, "view_mismatch", "as_mut_slice() differs from as_slice()");
+            unsafe { fill(a, n, pat); } sh.live.insert(a, (n, pat)); held.push((p, pat));
+        }
+        for (p, pat) in &held { ensure!(unsafe { first_bad(p.vptr(), p.vsize(), *pat) }.is_none(), "content_corrupt", "huge page lost its contents"); }
+        c.set_nontrivial(held.len() >= 2); return Ok(());
+    }
+    #[allow(unreachable_code)]
+    { let _ = c; crate::ctx::inconclusive("not linux") }
+}
+/// BumpAllocator::can_allocate must predict alloc_bytes (single thread); BumpVec push / pop / len / capacity / as_mut_slice
+/// against a Vec model while other bump blocks are live around it.
+fn bump_query_case(c: &mut Case) -> Res {
+    let cap = *c.rng.pick(&[1usize, 7, 8, 64, 100, 1000, 4096, 65_536]); let n = 30 + c.rng.usize_below(120);
+    let plan: Vec<(u8, usize, usize, u64)> = (0..n).map(|_| { let size = match c.rng.below(4) { 0 => 1 + c.rng.usize_below(16), 1 => 1 + c.rng.usize_below(cap.min(300)), 2 => 1 + c.rng.usize_below(cap + 8), _ => (cap / 4).max(1) }; (c.rng.below(10) as u8, if c.rng.chance(1, 12) { *c.rng.pick(&refuse_sizes(cap)) } else { size }, *c.rng.pick(&[1usize, 1, 2, 4, 8, 8, 16, 3, 4096]), c.rng.next()) }).collect();
+    c.input_str("cfg", &format!("capacity={cap}")); c.input_str("ops", &plan.iter().map(|&(k, s, a, _)| match k { 0..=5 => format!("b{s:#x}/{a} "), 6 | 7 => format!("vec{} ", s % 40 + 1), 8 => "vecops ".to_string(), _ => "reset ".to_string() }).collect::<String>());
+    if plan.iter().any(|&(k, s, _, _)| k <= 5 && s > usize::MAX - 4096) { c.tag("size_near_usize_max"); }
+    let b = BumpAllocator::new(cap).map_err(|e| bad("ctor_err", e.to_string()))?;
+    ensure!(b.capacity() == cap, "short_block", "BumpAllocator::new({cap}).capacity() = {}", b.capacity());
+    let mut sh = Shadow::new(); let mut vecs: Vec<(BumpVec<'_, u64>, Vec<u64>)> = Vec::new(); let (mut allocs, mut agree) = (0u64, 0u64);
+    let vec_ok = |v: &BumpVec<'_, u64>, m: &Vec<u64>, when: &str| -> Res { ensure!(v.len() == m.len() && v.is_empty() == m.is_empty() && v.as_slice() == &m[..], "content_corrupt", "{when}: BumpVec (len {}) differs from its model (len {})", v.len(), m.len()); Ok(()) };
+    for (i, &(k, size, align, x)) in plan.iter().enumerate() {
+        let when = format!("op {i}");
+        match k {
+            0..=5 => {
+                let can = catch(|| b.can_allocate(size, align)).map_err(|p| pfail(&format!("{when}: can_allocate({size:#x}, {align})"), p))?;
+                let r = catch(|| b.alloc_bytes(size, align)).map_err(|p| pfail(&format!("{when}: alloc_bytes({size:#x}, {align})"), p))?; c.ev(1);
+                ensure!(can == r.is_ok(), "can_allocate_mismatch", "{when}: can_allocate({size:#x}, {align}) = {can} but alloc_bytes returned {} ({} of {cap} bytes remaining)", if r.is_ok() { "Ok" } else { "Err" }, b.remaining_bytes());
+                agree += 1;
+                if let Ok(p) = r { let a = p.as_ptr() as usize; ensure!(a % align == 0, "misaligned", "{when}: alloc_bytes({size}, {align}) returned {a:#x}"); if let Some(o) = sh.overlap(a, size) { return Err(bad("overlap", format!("{when}: {o}"))); } unsafe { sh.insert_fill(a, size, pat_for(allocs)); } allocs += 1; c.ev(2); }
+            }
+            6 | 7 => {
+                let want = size % 40 + 1;
+                if let Ok(mut v) = catch(|| BumpVec::<u64>::new_in(&b, want)).map_err(|p| pfail(&format!("{when}: BumpVec::new_in({want})"), p))? {
+                    ensure!(v.capacity() == want && v.len() == 0 && v.is_empty(), "short_block", "{when}: BumpVec::new_in(.., {want}): capacity {} len {}", v.capacity(), v.len());
+                    let mut m = Vec::new(); for j in 0..(x as usize % (want + 1)) { let e = x.wrapping_mul(j as u64 + 3); v.push(e).map_err(|e| bad("alloc_err", format!("{when}: push within capacity: {e}")))?; m.push(e); }
+                    let a = v.as_slice().as_ptr() as usize; if !m.is_empty() { ensure!(a % 8 == 0, "misaligned", "{when}: BumpVec<u64> storage at {a:#x}"); }
+                    // the whole capacity belongs to the vector
+                    if let Some(o) = sh.overlap(v.as_mut_slice().as_mut_ptr() as usize, want * 8) { return Err(bad("overlap", format!("{when}: BumpVec storage: {o}"))); }
+                    sh.live.insert(v.as_mut_slice().as_mut_ptr() as usize, (want * 8, 0)); vecs.push((v, m)); allocs += 1; c.ev(2);
+                }
+            }
+            8 => if !vecs.is_empty() {
+                let j = x as usize % vecs.len(); let (v, m) = &mut vecs[j];
+                for r in 0..(x >> 8) % 12 { match (x >> (16 + r)) & 3 {
+                    0 => { let (a, w) = (v.pop(), m.pop()); ensure!(a == w, "content_corrupt", "{when}: BumpVec::pop() = {a:?}, model {w:?}"); }
+                    1 => { let e = x ^ r; let ok = v.push(e).is_ok(); ensure!(ok == (m.len() < v.capacity()), "capacity_not_refused", "{when}: push at len {} capacity {} returned ok={ok}", m.len(), v.capacity()); if ok { m.push(e); } }
+                    2 => { if !m.is_empty() { let q = x as usize % m.len(); v.as_mut_slice()[q] = !x; m[q] = !x; } ensure!(v.as_mut_slice().len() == m.len(), "content_corrupt", "{when}: as_mut_slice().len() {} model {}", v.as_mut_slice().len(), m.len()); }
+                    _ => {} } c.ev(1); }
+                vec_ok(v, m, &when)?;
+            },
+            _ => { for (v, m) in &vecs { vec_ok(v, m, &when)?; } sh.live.retain(|_, v| v.1 != 0); if let Some((a, s)) = unsafe { sh.verify_all() } { return Err(bad("content_corrupt", format!("{when}: bump block at {a:#x} (+{s}) lost its contents"))); } vecs.clear(); sh = Shadow::new(); unsafe { b.reset(); } }
+        }
+        if i % 8 == 7 { for (v, m) in &vecs { vec_ok(v, m, &when)?; } }
+    }
+    for (v, m) in &vecs { vec_ok(v, m, "end")?; }
+    sh.live.retain(|_, v| v.1 != 0); if let Some((a, s)) = unsafe { sh.verify_all() } { return Err(bad("content_corrupt", format!("end: bump block at {a:#x} (+{s}) lost its contents"))); }
+    c.note("allocs", allocs); c.note("can_allocate_checks", agree); c.set_nontrivial(allocs >= 2);
+    Ok(())
+}
+/// CacheAlignedVec::with_numa_node + element accessors (get / get_mut / as_mut_slice / is_empty) against a Vec model.
+fn cachevec_access_case(c: &mut Case) -> Res {
+    let n_ops = 60 + c.rng.usize_below(200); let plan: Vec<(u8, usize, u64)> = (0..n_ops).map(|_| (c.rng.below(10) as u8, c.rng.usize_below(4), c.rng.next())).collect();
+    c.input_str("ops", &plan.iter().map(|&(k, v, x)| format!("{k}:{v}:{} ", x % 1000)).collect::<String>());
+    let mut vecs: Vec<(CacheAlignedVec<u64>, Vec<u64>)> = (0..4).map(|i| (if i % 2 == 0 { CacheAlignedVec::with_numa_node(0) } else { CacheAlignedVec::new() }, Vec::new())).collect();
+    ensure!(vecs[0].0.numa_node() == Some(0), "builder_field_mismatch", "with_numa_node(0).numa_node() = {:?}", vecs[0].0.numa_node());
+    let mut pushes = 0u64;
+    for (i, &(k, vi, x)) in plan.iter().enumerate() {
+        let (v, m) = &mut vecs[vi];
+        match k {
+            0..=3 => { for j in 0..1 + x % 40 { let e = x.wrapping_add(j); catch(|| v.push(e)).map_err(|p| pfail(&format!("op {i}: push"), p))?.map_err(|e| bad("alloc_err", format!("op {i}: push: {e}")))?; m.push(e); pushes += 1; } }
+            4 => if !m.is_empty() { let q = x as usize % m.len(); match v.get_mut(q) { Some(r) => { *r = !x; m[q] = !x; } None => return Err(bad("content_corrupt", format!("op {i}: get_mut({q}) = None with len {}", m.len()))) } },
+            5 => if !m.is_empty() { let q = x as usize % m.len(); let s = v.as_mut_slice(); ensure!(s.len() == m.len(), "content_corrupt", "op {i}: as_mut_slice().len() = {} model {}", s.len(), m.len()); s[q] = x ^ 0xff; m[q] = x ^ 0xff; },
+            6 => { for _ in 0..x % 8 { let (a, w) = (v.pop(), m.pop()); ensure!(a == w, "content_corrupt", "op {i}: pop() = {a:?}, model {w:?}"); } }
+            7 => { if x % 5 == 0 { v.clear(); m.clear(); } }
+            _ => {}
+        }
+        c.ev(3);
+        ensure!(v.len() == m.len() && v.is_empty() == m.is_empty(), "content_corrupt", "op {i}: len {} / is_empty {} but the model has {} elements", v.len(), v.is_empty(), m.len());
+        ensure!(v.get(m.len()).is_none() && v.get_mut(m.len() + (x % 3) as usize).is_none(), "out_of_arena", "op {i}: get({}) beyond the length returned Some", m.len());
+        if !m.is_empty() { let q = x as usize % m.len(); ensure!(v.get(q) == Some(&m[q]), "content_corrupt", "op {i}: get({q}) = {:?}, model {}", v.get(q), m[q]); }
+        if v.capacity() > 0 { let a = v.as_slice().as_ptr() as usize; ensure!(a % 64 == 0, "misaligned", "op {i}: storage at {a:#x} is not 64-byte aligned"); }
+        if i % 8 == 7 { let rs: Vec<(usize, usize)> = vecs.iter().filter(|(v, _)| v.capacity() > 0).map(|(v, _)| (v.as_slice().as_ptr() as usize, v.capacity() * 8)).collect();
+            for (p, &(a, n)) in rs.iter().enumerate() { for &(b2, n2) in &rs[p + 1..] { ensure!(a + n <= b2 || b2 + n2 <= a, "overlap", "op {i}: vector storages [{a:#x},+{n}) and [{b2:#x},+{n2}) overlap"); } }
+            for (v, m) in &vecs { ensure!(v.as_slice() == &m[..], "content_corrupt", "op {i}: a vector lost its contents"); } }
+    }
+    for (v, m) in &vecs { ensure!(v.as_slice() == &m[..], "content_corrupt", "end: a vector lost its contents"); }
+    c.note("pushes", pushes); c.set_nontrivial(pushes >= 2);
+    Ok(())
+}
+/// PooledBuffer::is_empty, PooledVec::len / is_empty; init_global_pools must not disturb live pooled objects.
+fn pooled_query_case(c: &mut Case) -> Res {
+    let plan: Vec<(u8, usize)> = (0..20 + c.rng.usize_below(40)).map(|_| (c.rng.below(8) as u8, *c.rng.pick(&[0usize, 1, 8, 100, 1024, 1025, 4096, 65_536]))).collect();
+    c.input_str("ops", &plan.iter().map(|&(k, s)| format!("{k}:{s} ")).collect::<String>());
+    let mut bufs: Vec<(PooledBuffer, u8)> = Vec::new(); let mut vecs: Vec<(PooledVec<u64>, Vec<u64>)> = Vec::new(); let mut made = 0u64;
+    for (i, &(k, s)) in plan.iter().enumerate() {
+        match k {
+            0..=2 => if let Ok(mut b) = catch(|| PooledBuffer::new(s)).map_err(|p| pfail(&format!("op {i}: PooledBuffer::new({s})"), p))? {
+                ensure!(b.len() == s && b.is_empty() == (s == 0), "short_block", "op {i}: PooledBuffer::new({s}): len {} is_empty {}", b.len(), b.is_empty());
+                let pat = pat_for(made); made += 1; b.as_mut_slice().fill(pat); bufs.push((b, pat)); c.ev(1); },
+            3 | 4 => if let Ok(mut v) = catch(|| PooledVec::<u64>::new()).map_err(|p| pfail(&format!("op {i}: PooledVec::new"), p))? {
+                ensure!(v.len() == 0 && v.is_empty(), "short_block", "op {i}: fresh PooledVec has len {}", v.len());
+                let mut m = Vec::new(); for j in 0..(s % 50).min(v.capacity()) { v.push(j as u64 ^ s as u64).map_err(|e| bad("alloc_err", e.to_string()))?; m.push(j as u64 ^ s as u64); ensure!(v.len() == m.len() && !v.is_empty(), "content_corrupt", "op {i}: len() {} after {} pushes", v.len(), m.len()); }
+                made += 1; vecs.push((v, m)); c.ev(1); },
+            5 => { let r = catch(|| zipora::memory::pool::init_global_pools(s, 1 + s)).map_err(|p| pfail("init_global_pools", p))?; if s == 0 { ensure!(r.is_err(), "capacity_not_refused", "init_global_pools(0, ..) accepted a zero chunk size"); } }
+            6 => { if !bufs.is_empty() { bufs.remove(s % bufs.len()); } }
+            _ => { if !vecs.is_empty() { vecs.remove(s % vecs.len()); } }
+        }
+        for (b, pat) in &bufs { ensure!(b.as_slice().iter().all(|x| x == pat), "content_corrupt", "op {i}: a PooledBuffer of {} bytes lost its contents", b.len()); }
+        for (v, m) in &vecs { ensure!(v.as_slice() == &m[..] && v.len() == m.len(), "content_corrupt", "op {i}: a PooledVec lost its contents"); }
+        c.ev(1);
+    }
+    let _ = zipora::memory::pool::get_global_pool_stats();
+    c.note("objects", made); c.set_nontrivial(made >= 2);
+    Ok(())
+}
+
+// ---- five-level: FixedCapacityPool capacity queries, AdaptiveFiveLevelPool handles, LockFreePool free-list walk ----
+enum FiveX { Cap(FixedCapacityPool), Handle(AdaptiveFiveLevelPool, FiveLevelPoolHandle), Walk(LockFreePool) }
+struct FiveXAd { p: FiveX, offs: HashMap<u64, MemOffset>, live: HashMap<usize, usize>, cfg: FiveLevelPoolConfig, cap: usize, flip: u64, fault: Option<String>, beyond: u64 }
+impl Pool for FiveXAd {
+    fn props(&self) -> Props { Props { mem: false, min_align: self.cfg.alignment, abs_cap: Some(self.cap), cap_req: Some(self.cap), ..Default::default() } }
+    fn alloc(&mut self, id: u64, size: usize, _a: usize) -> Result<Got, String> {
+        self.flip += 1; let flip = self.flip; let cap = self.cap; let a = self.cfg.alignment;
+        let o = match &mut self.p {
+            FiveX::Cap(p) => {
+                let (r, at) = (p.remaining_capacity(), p.is_at_capacity());
+                if at != (r == 0) || r > cap { self.fault.get_or_insert(format!("remaining_capacity() = {r}, is_at_capacity() = {at}, capacity {cap}")); }
+                let res = p.alloc(size);
+                if res.is_ok() && (size.saturating_add(a - 1) & !(a - 1)) > r { self.beyond += 1; }
+                res
+            }
+            FiveX::Handle(ad, h) => if flip % 2 == 0 { h.alloc(size) } else { ad.alloc(size) },
+            FiveX::Walk(p) => p.alloc(size),
+        }.map_err(|e| e.to_string())?;
+        self.offs.insert(id, o); self.live.insert(off_value(o), size); Ok(Got { addr: off_value(o), usable: size, align: a })
+    }
+    fn free(&mut self, id: u64, _addr: usize, req: usize) -> Result<(), String> {
+        let o = self.offs.remove(&id).unwrap(); self.live.remove(&off_value(o)); let flip = self.flip;
+        match &mut self.p { FiveX::Cap(p) => p.free(o, req), FiveX::Handle(ad, h) => if (flip / 2) % 2 == 0 { h.free(o, req) } else { ad.free(o, req) }, FiveX::Walk(p) => p.free(o, req) }.map_err(|e| e.to_string())
+    }
+    fn selfcheck(&mut self) -> Result<(), String> {
+        if let Some(f) = self.fault.take() { return Err(f); }
+        match &self.p {
+            FiveX::Handle(ad, h) => { let (a, b) = (ad.stats(), h.stats()); if a.used_memory != b.used_memory || a.total_capacity != b.total_capacity { return Err(format!("the handle and the pool it was taken from disagree: used {} vs {}, capacity {} vs {}", b.used_memory, a.used_memory, b.total_capacity, a.total_capacity)); } }
+            FiveX::Walk(p) => {
+                let lists = p.verif_walk_free_lists()?; let live: Vec<(usize, usize)> = self.live.iter().map(|(&o, &s)| (o, s.max(1))).collect();
+                let ent: Vec<(usize, usize)> = lists.iter().flat_map(|(bs, offs)| offs.iter().map(move |&o| (o as usize, *bs))).collect();
+                free_vs_live(&ent, &live, Some((0, p.stats().total_capacity.max(self.cap)))).map_err(|(o, e)| format!("{o}: {e}"))?;
+            }
+            FiveX::Cap(_) => {}
+        }
+        Ok(())
+    }
+    fn abandon(self: Box<Self>) {}
+    fn notes(&self, c: &mut Case) { c.note("five_ok_beyond_remaining", self.beyond); if let FiveX::Handle(_, h) = &self.p { c.note("five_used", h.stats().used_memory as u64); } }
+}
+fn fivex_mk(c: &mut Case, which: &str) -> Result<Setup, Fail> {
+    let (cfg, name) = five_cfg(c);
+    let cap = match which { "cap" => cfg.fixed_capacity.unwrap_or(cfg.initial_capacity), "handle_l4" => cfg.initial_capacity.max(cfg.arena_size), _ => cfg.initial_capacity };
+    c.input_str("cfg", &format!("{which} preset={name} align={} max_fast={} capacity={cap} arena={}", cfg.alignment, cfg.max_fast_block_size, cfg.arena_size));
+    let a = cfg.alignment; let mf = cfg.max_fast_block_size;
+    let mut bounds: Vec<usize> = (1..=16).map(|i| i * a).collect(); bounds.extend_from_slice(&[256, 512, 1024, 4096, mf / 2, mf - a, mf]);
+    // fast blocks only: the huge-block paths are covered (and known to misbehave) in the existing five/* families
+    let tab = SizeTab { bounds, max: 2048, big: vec![], aligns: vec![], min: 1, live_bytes: 0, exact: false };
+    let cf = cfg.clone();
+    let p = catch(|| -> Result<FiveX, String> { Ok(match which {
+        "cap" => FiveX::Cap(FixedCapacityPool::new(cf).map_err(|e| e.to_string())?),
+        "walk" => FiveX::Walk(LockFreePool::new(cf).map_err(|e| e.to_string())?),
+        _ => { let lvl = match which { "handle_l2" => ConcurrencyLevel::MultiThreadMutex, "handle_l3" => ConcurrencyLevel::MultiThreadLockFree, _ => ConcurrencyLevel::ThreadLocal };
+            // levels without shared ownership must refuse to hand out a handle (Err, not a panic)
+            for l in [ConcurrencyLevel::SingleThread, ConcurrencyLevel::FixedCapacity] { let p1 = AdaptiveFiveLevelPool::with_level(cf.clone(), l).map_err(|e| e.to_string())?; if p1.get_handle().is_ok() { return Err(format!("HANDLE get_handle() on a {l:?} pool returned Ok")); } }
+            let ad = AdaptiveFiveLevelPool::with_level(cf, lvl).map_err(|e| e.to_string())?; let h = ad.get_handle().map_err(|e| format!("HANDLE get_handle() on a {lvl:?} pool: {e}"))?; FiveX::Handle(ad, h) } }) });
+    let p = match p { Ok(Ok(p)) => p, Ok(Err(e)) if e.starts_with("HANDLE") => return Err(bad("handle_unavailable", e)), Ok(Err(e)) => return Err(bad("ctor_err", format!("five-level {which}: {e}"))), Err(pi) => return Err(pfail("five-level constructor", pi)) };
+    Ok(Setup { pool: Box::new(FiveXAd { p, offs: HashMap::new(), live: HashMap::new(), cfg, cap, flip: 0, fault: None, beyond: 0 }), tab, tagger: no_tags() })
+}
+fn fivex_case(c: &mut Case, which: &str, fam: Fam) -> Res {
+    history_ops(c, |c| fivex_mk(c, which), false, |r, tab, pr| { let mut ops = gen_ops(r, fam, tab, pr, true); ops.push(Op::V); ops })
+}
+
 // ------------------------------------------------------------------------------------------------
 // registration
 // ------------------------------------------------------------------------------------------------
@@ -1330,6 +1772,30 @@ pub fn run(ctx: &mut Ctx) {
     for idx in 0..k(ctx, 2, 4) { ctx.case("hugepage", "pages", idx, hugepage_case); }
     for idx in 0..k(ctx, 3, 20) { ctx.case("fc/tiny_block", "mixed", idx, |c| history(c, Fam::Micro, |c| { let (pool, tab) = fc_mk(c, "tiny_block")?; Ok(Setup { pool, tab, tagger: no_tags() }) })); }
     for idx in 0..2 { ctx.case("secure/odd_chunk", "mixed", idx, |c| history(c, Fam::Micro, |c| { let pool = sec_mk(c, "odd_chunk")?; Ok(Setup { pool, tab: fixed_tab(8), tagger: no_tags() }) })); }
+    // ---- gap-coverage families (see "gap-coverage families" above) ----
+    for idx in 0..ctx.n(48, 600) as u64 {
+        ctx.case("lf/small", "views", idx, views_lf_case);
+        ctx.case("tlmp/compact", "views", idx, |c| in_thread(c, views_tl_case));
+        ctx.case("fc/custom", "views", idx, views_fc_case);
+        ctx.case("secure/rand", "builder_views", idx, views_secure_case);
+        ctx.case("bump/alloc", "query", idx, bump_query_case);
+        ctx.case("cachevec/u64", "access", idx, cachevec_access_case);
+    }
+    for idx in 0..ctx.n(24, 300) as u64 {
+        ctx.case("mmap", "views", idx, views_mmap_case);
+        ctx.case("tiered/default", "views", idx, |c| views_tiered_case(c, false));
+        ctx.case("tiered/global", "views", idx, |c| views_tiered_case(c, true));
+        ctx.case("pooled", "query", idx, pooled_query_case);
+        ctx.case("five/fixed", "capq_mixed", idx, |c| fivex_case(c, "cap", Fam::Mixed));
+        ctx.case("five/fixed", "capq_exhaust", idx, |c| fivex_case(c, "cap", Fam::Exhaust));
+        ctx.case("five/lockfree", "walk_mixed", idx, |c| fivex_case(c, "walk", Fam::Mixed));
+        ctx.case("five/lockfree", "walk_pairs", idx, |c| fivex_case(c, "walk", Fam::Pairs));
+        ctx.case("five/ad_l2", "handle_mixed", idx, |c| fivex_case(c, "handle_l2", Fam::Mixed));
+        ctx.case("five/ad_l3", "handle_mixed", idx, |c| fivex_case(c, "handle_l3", Fam::Mixed));
+        // thread-local level: short histories that stay inside the hot area (the local/global offset clash is a known class)
+        ctx.case("five/ad_l4", "handle_micro", idx, |c| in_thread(c, |c| fivex_case(c, "handle_l4", Fam::Micro)));
+    }
+    for idx in 0..2 { ctx.case("hugepage", "direct", idx, hugepage_direct_case); }
     // ---- last: may kill the worker on the unchanged tree (see pooledvec_overalign_case) ----
     ctx.case("pooledvec/overalign", "align64", 0, pooledvec_overalign_case);
 }
